@@ -35,6 +35,13 @@
 #include "esl_sq.h"
 #include "esl_ssi.h"
 
+#ifdef EASEL_VERIF
+/* verification hook H2: run-time override of the fixed read-block size */
+int esl_verif_readbufsize = 4096;
+#undef  eslREADBUFSIZE
+#define eslREADBUFSIZE esl_verif_readbufsize
+#endif
+
 /* format specific routines */
 static int   sqascii_GuessFileFormat(ESL_SQFILE *sqfp, int *ret_fmt);
 static int   sqascii_Position       (ESL_SQFILE *sqfp, off_t offset);
